@@ -241,8 +241,9 @@ class Repo:
         self.renamed_back: Dict[str, str] = {}
         if os.environ.get('VERIF_NO_NORMALIZE') != '1':
             from .renames import (canonical_imports, desugar_match, inline_decorators, materialise_dataclass_init, materialise_properties,
-                                  specialise_mixins, undo_renames)
+                                  plain_assignments, specialise_mixins, undo_renames)
             trees_ = {fn[:-3]: t[3] for fn, t in parsed.items()}
+            self.annotated_locals = plain_assignments(trees_)
             self.match_statements = desugar_match(trees_)
             self.dataclass_inits = materialise_dataclass_init(trees_)
             self.canonical_imports = canonical_imports(trees_, PKG)
